@@ -344,7 +344,7 @@ func C32(c *Ctx) {
 	}
 	c.Floor(r2, n, 2, "mutators of WaterMark.doneUntil")
 	onlyCallers(c, r2, c.Fn("utils", "WaterMark.SetDoneUntil"), map[string]string{
-		"(*NoKV.oracle).initCommitState":            "seeding at Open, before first use",
+		"(*NoKV.oracle).initCommitState":             "seeding at Open, before first use",
 		"(*raftstore/peer.Peer).markSnapshotApplied": "raft snapshot install moves the applied mark to the snapshot index",
 	}, 2)
 
@@ -464,7 +464,7 @@ func C33(c *Ctx) {
 				c.Fail(r1, k, r.Pos(), n, "the lock file is unlinked after the flock was dropped / descriptor closed: a process that locked the old inode in between and a process that creates a new LOCK file both hold the directory (acquire re-validates: %v)", revalidates)
 			}
 		}
-	} 
+	}
 	acquireRevalidates(c, r1)
 	// acquire path: flock success dominates DirLock construction
 	for _, name := range []string{"tryAcquireDirLock", "AcquireDirLock"} {
